@@ -2,6 +2,7 @@
 // stream gateway type; the received sequence must equal the sent one under every segmentation and
 // every interleaving of DoOutput(maxBytes)/DoInput(maxBytes).  Oracles per kind (see DESIGN C03).
 #include "models/refmsg.h"
+#include "models/cbuild.h"
 #include "transport/choppy.h"
 #include "iogateway/MessageIOGateway.h"
 #include "iogateway/TemplatingMessageIOGateway.h"
@@ -301,32 +302,7 @@ struct CIO {Pipe * pipe; Plan * plan;};
 static int32 CSend(const uint8 * buf, uint32 n, void * arg) {CIO * io = (CIO *) arg; const uint32 k = io->plan->Chunk(n); for (uint32 i=0; i<k; i++) io->pipe->q.push_back(buf[i]); return (int32) k;}
 static int32 CRecv(uint8 * buf, uint32 n, void * arg) {CIO * io = (CIO *) arg; const uint32 k = io->plan->Chunk(muscleMin(n, (uint32)io->pipe->q.size())); for (uint32 i=0; i<k; i++) {buf[i] = io->pipe->q.front(); io->pipe->q.pop_front();} return (int32) k;}
 
-// builds the model into a UMessage that is being assembled in place (fields contiguous, nested Messages in line)
-static bool BuildUM(UMessage * um, const MMsg & mod)
-{
-   for (size_t i=0; i<mod.f.size(); i++)
-   {
-      const MField & f = mod.f[i]; const char * fn = f.name.c_str(); const uint32 n = (uint32) f.items.size(); c_status_t r = CB_NO_ERROR;
-      std::string all; for (uint32 k=0; k<n; k++) all += f.items[k];
-      switch(f.tc)
-      {
-         case B_BOOL_TYPE:   {std::vector<UBool> v(n); for (uint32 k=0; k<n; k++) v[k] = f.items[k][0] ? UTrue : UFalse; r = UMAddBools(um, fn, &v[0], n);} break;
-         case B_INT8_TYPE:   r = UMAddInt8s(um, fn, (const int8 *)all.data(), n); break;
-         case B_INT16_TYPE:  {std::vector<int16> v(n); memcpy(&v[0], all.data(), all.size()); r = UMAddInt16s(um, fn, &v[0], n);} break;
-         case B_INT32_TYPE:  {std::vector<int32> v(n); memcpy(&v[0], all.data(), all.size()); r = UMAddInt32s(um, fn, &v[0], n);} break;
-         case B_INT64_TYPE:  {std::vector<int64> v(n); memcpy(&v[0], all.data(), all.size()); r = UMAddInt64s(um, fn, &v[0], n);} break;
-         case B_FLOAT_TYPE:  {std::vector<float> v(n); memcpy(&v[0], all.data(), all.size()); r = UMAddFloats(um, fn, &v[0], n);} break;
-         case B_DOUBLE_TYPE: {std::vector<double> v(n); memcpy(&v[0], all.data(), all.size()); r = UMAddDoubles(um, fn, &v[0], n);} break;
-         case B_POINT_TYPE:  {std::vector<UPoint> v(n); memcpy(&v[0], all.data(), all.size()); r = UMAddPoints(um, fn, &v[0], n);} break;
-         case B_RECT_TYPE:   {std::vector<URect> v(n); memcpy(&v[0], all.data(), all.size()); r = UMAddRects(um, fn, &v[0], n);} break;
-         case B_STRING_TYPE: {std::vector<const char *> v(n); for (uint32 k=0; k<n; k++) v[k] = f.items[k].c_str(); r = UMAddStrings(um, fn, &v[0], n);} break;
-         case B_MESSAGE_TYPE: for (uint32 k=0; k<n; k++) {UMessage sub = UMInlineAddMessage(um, fn, f.subs[k]->what); if (UMIsMessageValid(&sub) == UFalse) return false; if (BuildUM(&sub, *f.subs[k]) == false) return false;} break;
-         default: for (uint32 k=0; k<n; k++) if (UMAddData(um, fn, f.tc, f.items[k].data(), (uint32)f.items[k].size()) != CB_NO_ERROR) return false; break;
-      }
-      if (r != CB_NO_ERROR) return false;
-   }
-   return true;
-}
+using cbuild::BuildUM;
 
 static void GenCommonMsg(Case & c, Message & msg, MMsg & mod, bool forMicro)
 {
